@@ -233,8 +233,6 @@ class Advertiser(Entity):
         return None
 
     def _evaluate(self) -> list[Event]:
-        time_s = self.now.to_seconds()
-
         prev_count = len(self.active_tiers)
         self.active_tiers = [t for t in self.tiers if t.is_profitable(self._sentiment, self.margin)]
         new_count = len(self.active_tiers)
@@ -281,7 +279,9 @@ class Advertiser(Entity):
                 },
             ),
             Event(
-                time=Instant.from_seconds(time_s + self.evaluation_interval),
+                # Integer clock arithmetic: a float round trip of `now` can
+                # truncate the next evaluation back onto the current instant.
+                time=self.now + self.evaluation_interval,
                 event_type="EvaluateCampaigns",
                 target=self,
             ),
